@@ -778,7 +778,23 @@ pub fn gen_request(rng: &mut Rng, cfg: &SvcCfg, token: &str) -> GenReq {
 /// a frame serde_json must reject (or that is at least hostile)
 pub fn gen_malformed(rng: &mut Rng, cfg: &SvcCfg, token: &str) -> GenReq {
     let good = gen_request(rng, cfg, token).bytes;
-    let (bytes, kind): (Vec<u8>, &str) = match rng.below(16) {
+    let (bytes, kind): (Vec<u8>, &str) = match rng.below(18) {
+        16 | 17 => {
+            // two defects in one message: a semantic one first (wrong type / missing member / truncation),
+            // bytes that are not UTF-8 later
+            let head: &[u8] = match rng.below(4) {
+                0 => b"{\"method\":1,\"note\":\"ab",
+                1 => b"{\"more\":\"yes\",\"method\":\"a.b\",\"note\":\"",
+                2 => b"{\"parameters\":{},\"note\":\"q",
+                _ => b"[\"x\",\"",
+            };
+            let mut v = head.to_vec();
+            v.push(0xFF);
+            if rng.chance(1, 2) {
+                v.extend_from_slice(b"c\"}");
+            }
+            (v, "bad:two-defects-type-then-utf8")
+        }
         14 | 15 => {
             // long malformed text with a multi-byte / invalid byte sitting right at a power-of-two offset
             // (where excerpts and buffers are usually cut)
